@@ -283,8 +283,57 @@ def repair_only_without_notes(ctx, rule='REPAIR/only-a-measure-without-notes'):
       ctx.ob(rule, fi, c, False, why, construct=cons, unknown=why)
 
 
+# (measure duration in divisions, divisions per quarter, numerator in force, denominator in force) -> is a time signature inserted?
+# complete bars in the meter in force that declare nothing keep the meter (nothing is reported); a shorter first bar is a pickup
+METER_SCENARIOS = [((4, 1, 4, 4), False), ((3, 1, 3, 4), False), ((6, 2, 6, 8), False), ((2, 1, 2, 4), False), ((8, 2, 4, 4), False), ((1, 1, 4, 4), True), ((2, 1, 3, 4), True)]
+
+
+def complete_bar_keeps_the_meter(ctx, rule='METER/complete-bar-keeps-the-meter'):
+  """"the declared time signature ... reported at the times they occur": Measure._fix_time_signature inserts a time signature of its
+  own only for a pickup / incomplete bar.  Its body is evaluated path by path on METER_SCENARIOS (a global time signature in force,
+  none declared in the measure): the scenario decides whether state.time_signature is written."""
+  from sa import pathval, scenario
+  fi = ctx.func('musicxml_parser:Measure._fix_time_signature')
+  try:
+    ps = pathval.paths(fi.node.body, opaque=True, strict_exits=True)
+  except pathval.PathError as e:
+    why = 'cannot classify: _fix_time_signature is not a block of assignments and tests (%s)' % e
+    ctx.ob(rule, fi, fi.node, False, why, construct='complete bars keep the meter in force', unknown=why)
+    return
+  for (dur, div, num, den), want in METER_SCENARIOS:
+    env = {'self.duration': ast.Constant(value=dur), 'self.state.divisions': ast.Constant(value=div), 'self.state.time_signature.numerator': ast.Constant(value=num),
+           'self.state.time_signature.denominator': ast.Constant(value=den), 'self.state.time_signature': ast.Constant(value=1), 'self.time_signature': ast.Constant(value=None)}
+    cons = 'a measure of %d divisions (%d per quarter) under %d/%d: time signature inserted = %s' % (dur, div, num, den, want)
+    got, stuck = None, None
+    for conds, penv, _end in ps:
+      taken = True
+      for t, pol in conds:
+        v = scenario.fold_numeric(pathval.subst(t, env), {})
+        if v is None:
+          stuck, taken = norm_text(t), None
+          break
+        if bool(v) != pol:
+          taken = False
+          break
+      if taken is None:
+        break
+      if taken:
+        got = 'self.state.time_signature' in penv
+        break
+    if got is None:
+      why = 'cannot classify: %s cannot be evaluated in this scenario' % (stuck or 'no path of _fix_time_signature')
+      ctx.ob(rule, fi, fi.node, False, why, construct=cons, unknown=why)
+    else:
+      ok = got == want
+      ctx.ob(rule, fi, fi.node, ok, 'inserted: %s' % got if ok else
+             ('a complete measure (%d divisions at %d per quarter) in the %d/%d in force, declaring nothing, gets a time signature of its own inserted: the score reports a meter change it does '
+              'not declare (and repeats it at every such bar)' % (dur, div, num, den) if got else
+              'a pickup measure of %d divisions under %d/%d gets no time signature of its own' % (dur, num, den)), construct=cons, definite=True)
+
+
 def run(ctx):
   # location-independent analyses first: an anchored rule that gives up later must not mask them
+  complete_bar_keeps_the_meter(ctx)
   repair_only_without_notes(ctx)
   made_up_tempo_only_without_marks(ctx)
   degree_subtract(ctx, 'DEGREE/subtract-is-no')
@@ -909,8 +958,14 @@ def kinds(ctx):
   ok = len(asg) == 1 and isinstance(asg[0].value, ast.BinOp) and [norm_text(x) for x in _flat_add(asg[0].value)][:2] == ['self.root', 'self.kind'] and len(_flat_add(asg[0].value)) == 3
   ctx.ob('FIG/order', gf, asg[0] if asg else gf.node, ok, 'figure = root + kind + degrees' if ok else 'the figure is not assembled as root, kind, degrees')
   b = [s for s in U.walk_stmts(gf.node) if isinstance(s, ast.AugAssign) and norm_text(s.target) == 'figure']
-  ok = len(b) == 1 and norm_text(b[0].value) == "'/' + self.bass" and any(norm_text(t) == 'self.bass' and pol for (t, pol) in U.enclosing_tests(gf.node, b[0]))
-  ctx.ob('FIG/bass', gf, b[0] if b else gf.node, ok, '"/bass" is appended last, only when a bass is present' if ok else 'the bass is not appended as "/bass" last')
+  conds_b = U.path_conditions(gf.node, b[0]) if len(b) == 1 else []
+  ok = len(b) == 1 and norm_text(b[0].value) == "'/' + self.bass" and any(norm_text(t) == 'self.bass' and pol for (t, pol) in conds_b)
+  # located whatever the arrangement: the bass is written whenever one was declared - a further condition on the root ("not when it equals
+  # the root") drops a declared <bass>
+  extra_b = [t for t, _p in conds_b if any(isinstance(n_, ast.Attribute) and n_.attr == 'root' for n_ in ast.walk(t))]
+  ctx.ob('FIG/bass', gf, b[0] if b else gf.node, ok and not extra_b, '"/bass" is appended last, only when a bass is present' if ok and not extra_b else
+         ('the bass is appended only when %s: a <harmony> that declares a bass equal to its root ("Fm/F") is reported without it' % ' and '.join(norm_text(t) for t in extra_b) if extra_b else
+          'the bass is not appended as "/bass" last'), definite=bool(extra_b))
   nc = [s for s in gf.node.body if isinstance(s, ast.If) and "'N.C.'" in norm_text(s.test)]
   ctx.ob('FIG/no-chord', gf, nc[0] if nc else gf.node, bool(nc), 'N.C. is returned as is' if nc else 'the N.C. kind is not handled')
 
